@@ -868,6 +868,129 @@ int streamCfg(std::istream& in)
   return 0;
 }
 
+// ---------------------------------------------------------------------------
+// stream "multi": histories interleaved over several primesieve::iterator objects (C14)
+//   <idx> <iter op>      idx in 0..7; same operations and output as stream "iter"
+// ---------------------------------------------------------------------------
+int streamMulti(std::istream& in)
+{
+  std::vector<std::unique_ptr<primesieve::iterator>> its;
+  for (int i = 0; i < 8; i++) its.emplace_back(new primesieve::iterator());
+  std::string line;
+  while (std::getline(in, line))
+  {
+    auto t = split(line);
+    if (t.empty() || t[0][0] == '#')
+      continue;
+    int idx = atoi(t[0].c_str());
+    if (idx < 0 || idx > 7 || t.size() < 2) { std::cerr << "bad op: " << line << "\n"; return 2; }
+    auto& it = its[idx];
+    if (t[1] == "new")
+    {
+      it.reset(new primesieve::iterator(u64(t[2]), u64(t[3])));
+      std::cout << idx << " new " << t[2] << " " << t[3] << " => " << iterState(*it) << "\n";
+    }
+    else if (t[1] == "next" || t[1] == "prev")
+    {
+      long n = t.size() > 2 ? atol(t[2].c_str()) : 1;
+      for (long j = 0; j < n; j++)
+      {
+        std::string res;
+        try
+        {
+          uint64_t v = (t[1] == "next") ? it->next_prime() : it->prev_prime();
+          res = "v=" + std::to_string(v);
+        }
+        catch (const std::exception& e) { res = "v=ERR:" + errClass(e); }
+        std::cout << idx << " " << t[1] << " k=" << it->size_ << " => " << res << " " << iterState(*it) << "\n";
+      }
+    }
+    else if (t[1] == "jump")
+    {
+      it->jump_to(u64(t[2]), u64(t[3]));
+      std::cout << idx << " jump " << t[2] << " " << t[3] << " => " << iterState(*it) << "\n";
+    }
+    else if (t[1] == "clear")
+    {
+      it->clear();
+      std::cout << idx << " clear => " << iterState(*it) << "\n";
+    }
+    else { std::cerr << "bad op: " << line << "\n"; return 2; }
+  }
+  return 0;
+}
+
+// ---------------------------------------------------------------------------
+// stream "iterc": histories on one primesieve_iterator (C API)
+//   new <start> <hint> | next [n] | prev [n] | jump <s> <h> | skipto <s> <h> | clear | reinit
+// ---------------------------------------------------------------------------
+std::string citerState(const primesieve_iterator& it)
+{
+  std::ostringstream o;
+  ull stop = it.start, dist = 0;
+  int incl = 1, gen = 0;
+  if (it.memory)
+  {
+    auto& d = *(IteratorData*) it.memory;
+    stop = d.stop; dist = d.dist; incl = d.include_start_number; gen = d.primeGenerator != nullptr;
+  }
+  o << "i=" << it.i << " size=" << it.size << " start=" << it.start << " stop=" << stop << " dist=" << dist
+    << " incl=" << incl << " gen=" << gen;
+  if (it.size > 0) o << " b0=" << it.primes[0] << " bl=" << it.primes[it.size - 1];
+  else o << " b0=- bl=-";
+  o << " err=" << (it.is_error ? 1 : 0);
+  return o.str();
+}
+
+int streamIterC(std::istream& in)
+{
+  primesieve_iterator it;
+  primesieve_init(&it);
+  bool edom = false;
+  std::string line;
+  while (std::getline(in, line))
+  {
+    auto t = split(line);
+    if (t.empty() || t[0][0] == '#')
+      continue;
+    if (t[0] == "new")
+    {
+      primesieve_free_iterator(&it);
+      primesieve_init(&it);
+      edom = false;
+      primesieve_jump_to(&it, u64(t[1]), u64(t[2]));
+      std::cout << "new " << t[1] << " " << t[2] << " => " << citerState(it) << " edom=0\n";
+    }
+    else if (t[0] == "next" || t[0] == "prev")
+    {
+      long n = t.size() > 1 ? atol(t[1].c_str()) : 1;
+      for (long j = 0; j < n; j++)
+      {
+        errno = 0;
+        uint64_t v = (t[0] == "next") ? primesieve_next_prime(&it) : primesieve_prev_prime(&it);
+        if (errno == EDOM) edom = true;
+        std::cout << t[0] << " k=" << it.size << " => v=" << v << " " << citerState(it) << " edom=" << (edom ? 1 : 0)
+                  << (errno == EDOM && !it.is_error ? " ORACLE-MISMATCH errno=EDOM-without-is_error" : "") << "\n";
+      }
+    }
+    else if (t[0] == "jump" || t[0] == "skipto")
+    {
+      if (t[0] == "jump") primesieve_jump_to(&it, u64(t[1]), u64(t[2]));
+      else primesieve_skipto(&it, u64(t[1]), u64(t[2]));
+      std::cout << t[0] << " " << t[1] << " " << t[2] << " => " << citerState(it) << " edom=" << (edom ? 1 : 0) << "\n";
+    }
+    else if (t[0] == "clear")
+    {
+      primesieve_clear(&it);
+      std::cout << "clear => " << citerState(it) << " edom=" << (edom ? 1 : 0) << "\n";
+    }
+    else { std::cerr << "bad op: " << line << "\n"; return 2; }
+  }
+  primesieve_free_iterator(&it);
+  primesieve_free_iterator(&it);   // API-permitted: repeated free
+  return 0;
+}
+
 } // namespace
 
 int main(int argc, char** argv)
@@ -899,6 +1022,10 @@ int main(int argc, char** argv)
     return streamNth(in);
   if (stream == "cfg")
     return streamCfg(in);
+  if (stream == "multi")
+    return streamMulti(in);
+  if (stream == "iterc")
+    return streamIterC(in);
   std::cerr << "unknown stream " << stream << "\n";
   return 2;
 }
